@@ -239,7 +239,13 @@ DATAPLANE = {"C01", "C02", "C03", "C04", "C05", "C06", "C07", "C08", "C09", "C10
 def run_property(prop, tier, seed, replay, extra):
     try:
         if prop in DATAPLANE:
-            work, binary, ov = prepare_dataplane(prop)
+            cfgs = None
+            if prop == "C10":
+                # key-focused schema of its own (multi-key lists with decimal64 / 64-bit / union keys)
+                cfgs = dict(CFGS)
+                cfgs["vtk/U-simple"] = dict(pkg="vtkus", files=["vt-keys.yang"], flags=["-generate_simple_unions"],
+                                            attrs=dict(Compressed=False, Wrapper=False))
+            work, binary, ov = prepare_dataplane(prop, cfgs=cfgs)
             env_extra = None
             if prop == "C20" and tier == "thorough" and not replay:
                 # coverage-guided native fuzz target (harness/fuzz), run by the monitor itself
